@@ -155,6 +155,10 @@ impl ToolRunner {
         seq: &mut u64,
         invocation: ToolInvocation,
     ) -> Vec<Event> {
+        #[cfg(rip_verif)]
+        rip_kernel::verif::lock_point("tool.semaphore", &|| {
+            self.semaphore.available_permits() > 0
+        });
         let _permit = self.semaphore.acquire().await.expect("semaphore");
         let tool_id = Uuid::new_v4().to_string();
         let started_at = Instant::now();
@@ -187,6 +191,8 @@ impl ToolRunner {
             }
         };
 
+        #[cfg(rip_verif)]
+        rip_kernel::verif::span("tool.handler", true, &invocation.name);
         let output = if let Some(timeout_ms) = invocation.timeout_ms {
             match tokio::time::timeout(
                 Duration::from_millis(timeout_ms),
@@ -200,6 +206,8 @@ impl ToolRunner {
         } else {
             Ok((handler)(invocation.clone()).await)
         };
+        #[cfg(rip_verif)]
+        rip_kernel::verif::span("tool.handler", false, &invocation.name);
 
         match output {
             Ok(output) => {
